@@ -1,6 +1,7 @@
 (* model runner for the directory slot layer (mode "cdir"): one input line -> one output line.
    A directory region travels as hex (a multiple of 32 bytes; "-" = empty); names as hex of UTF-8.
-   <kind> = "root" (fixed root) | "chain:<cluster_slots>:<free clusters>".
+   <kind> = "root" (fixed root: <region> must be the WHOLE root region, its size is the capacity find_free_entries tests -
+   13fd5fe) | "chain:<cluster_slots>:<free clusters>".
    "upper <file>"                                        load the to_uppercase table (shared with mode c15) -> "ok <n>"
    "create <kind> <fat32 0|1> <region> <name> <attrs> <cluster|-> <y> <m> <d> <h> <mi> <s> <ms> <want_dir 0|1>"
         create_entry (existence check, alias, stamps, write_entry)
@@ -9,7 +10,8 @@
         write_entry with the given short entry -> as above
    "delete <region> <first> <last>"                      mark_deleted -> "ok <region>"
    "remove <region> <name> <child_nonempty 0|1>"         remove_entry -> "ok <region>" | "err <Variant> <region>"
-   "rename <kind> <region> <src> <dst>"                  rename_in_dir -> "ok <path> <region>" | "err <Variant> <region>"
+   "rename <kind> <region> <src> <dst>"                  rename_in_dir (write the new entry, then delete the source: d9f4de8)
+        -> "ok <path> <region>" | "err <Variant> <region>"
         <path> (coverage only; the model's own find_entry / check_for_existence / has_exact_name): "fresh" (destination name
         unused), "self-exact" (destination resolves to the source entry in its stored spelling: no-op), "self-respell"
         (to the source entry under another spelling / its alias: rewritten with the same short name)
